@@ -207,36 +207,45 @@ Proof.
   destruct (existsb _ wds), (list_eqb (rib_key n) k); reflexivity.
 Qed.
 
-(* UpdateHandler on a decoded UPDATE: (rib - withdrawn) (+) announced, key by key; a key both announced and
-   withdrawn by the same UPDATE ends withdrawn (announces are stored first) *)
-Theorem ribin_apply_map r u k :
-  rib_get (ribin_apply true r u) k =
-  if withdraws_key k (u_wd u) then None else
-  match last_announce k (u_ann u) with
-  | Some a => Some (fst a, snd a, u_attrs u)
-  | None => rib_get r k
-  end.
+(* UpdateHandler with the withdraws applied first = the RFC 4271 4.3 table update: withdrawn routes removed, announced
+   ones installed, a route that the same UPDATE both withdraws and announces stays announced *)
+Theorem ribin_rfc r u k :
+  rib_get (ribin_apply_gen true true r u) k =
+  ref_rib_after rib_key list_eqb (rib_get r) (u_ann u) (u_wd u) (u_attrs u) k.
 Proof.
-  unfold ribin_apply, reaches_rib. cbn [orb]. now rewrite rib_get_withdraws, rib_get_announces.
+  unfold ribin_apply_gen, reaches_rib, ref_rib_after. cbn [orb].
+  rewrite rib_get_announces, rib_get_withdraws. reflexivity.
 Qed.
 
-(* composed with the agreement theorem: after a well-formed UPDATE the table holds the reference's routes *)
+(* the tree under check, when its handler applies the withdraws first *)
+Theorem ribin_tree : RIBIN_WITHDRAW_FIRST = true -> forall r u k,
+  rib_get (ribin_apply true r u) k =
+  ref_rib_after rib_key list_eqb (rib_get r) (u_ann u) (u_wd u) (u_attrs u) k.
+Proof. intros H r u k. unfold ribin_apply. rewrite H. apply ribin_rfc. Qed.
+
+(* the other order (announces stored, then withdraws removed): a route both withdrawn and announced is lost *)
+Definition w_both_route : nlri := mkN 1 1 None [] [] 24 [10;1;2].
+Definition w_both_update : update := mkU [(w_both_route, [10;0;0;1])] [w_both_route] [].
+Theorem ribin_announce_first_refuted :
+  rib_get (ribin_apply_gen false true [] w_both_update) (rib_key w_both_route) = None
+  /\ ref_rib_after rib_key list_eqb (rib_get []) (u_ann w_both_update) (u_wd w_both_update) (u_attrs w_both_update)
+       (rib_key w_both_route) = Some (w_both_route, [10;0;0;1], [])
+  /\ rib_get (ribin_apply_gen true true [] w_both_update) (rib_key w_both_route) = Some (w_both_route, [10;0;0;1], []).
+Proof. repeat split; vm_compute; reflexivity. Qed.
+
+(* composed with the agreement theorem: after a well-formed UPDATE the table is the RFC one for the reference's routes *)
 Theorem ribin_reference opq s other b u :
+  RIBIN_WITHDRAW_FIRST = true ->
   ip_sess s -> wfb b ->
   (forall wb ab nb l, sections b = Some (wb, ab, nb) -> tlvs (length ab) ab = Some l -> forallb modelled l = true) ->
   ref_update_gen unpack_nlri other (rs_of s) b = Some (RUpdate u) ->
   exists u', dec_update opq s b = Decoded u' /\ map entry_of (u_attrs u') = ru_attrs u
     /\ forall r k, rib_get (ribin_apply true r u') k =
-         if withdraws_key k (ru_withdrawn u) then None else
-         match last_announce k (ru_announced u) with
-         | Some a => Some (fst a, snd a, u_attrs u')
-         | None => rib_get r k
-         end.
+         ref_rib_after rib_key list_eqb (rib_get r) (ru_announced u) (ru_withdrawn u) (u_attrs u') k.
 Proof.
-  intros Hp Hw Hm H. destruct (agrees_with_reference opq s other b _ Hp Hw Hm H) as (u' & Hd & Ha & Hwd & He).
-  exists u'. split; [exact Hd|]. split; [exact He|]. intros r k. rewrite ribin_apply_map, Ha, Hwd. reflexivity.
+  intros Hord Hp Hw Hm H. destruct (agrees_with_reference opq s other b _ Hp Hw Hm H) as (u' & Hd & Ha & Hwd & He).
+  exists u'. split; [exact Hd|]. split; [exact He|]. intros r k. rewrite (ribin_tree Hord), Ha, Hwd. reflexivity.
 Qed.
-
 
 (* ------------------------------------------------------------------ the discard class *)
 
